@@ -69,9 +69,9 @@ def w_useq(exe, nb, lo, hi, step, opts):
     return part
 
 
-def w_list63(exe, strings, opts, src, with_email=False):
+def w_list63(exe, strings, opts, src, with_email=False, subrange=False):
     """Explicit strings, mode 6531, plus the pure-ASCII relation with mode 5321 (default build only)."""
-    part = LG.w_list(exe, [MODE], strings, opts, PROP, src, with_email)
+    part = LG.w_list(exe, [MODE], strings, opts, PROP, src, with_email, subrange)
     if not opts:
         lines = ["L " + driver.hx(b) for b in strings if b and max(b) < 0x80]
         asc = [b for b in strings if b and max(b) < 0x80]
@@ -141,7 +141,7 @@ def main(tier, seed, prop=PROP):
     # --- conformance, per-byte, corpus, boundary, random
     conf = LG.conformance_strings(MODE, frozenset(opts))
     for i in range(0, len(conf), 4000):
-        jobs.append((w_list63, (exe, conf[i:i + 4000], opts, "conformance", True)))
+        jobs.append((w_list63, (exe, conf[i:i + 4000], opts, "conformance", True, True)))
     bs = LG.byte_suite(MODE, frozenset(opts))
     for i in range(0, len(bs), 6000):
         jobs.append((w_list63, (exe, bs[i:i + 6000], opts, "bytes", False)))
@@ -154,7 +154,7 @@ def main(tier, seed, prop=PROP):
                 muts.add(m)
     muts = sorted(muts)
     for i in range(0, len(muts), 4000):
-        jobs.append((w_list63, (exe, muts[i:i + 4000], opts, "corpus", True)))
+        jobs.append((w_list63, (exe, muts[i:i + 4000], opts, "corpus", True, True)))
     # every non-ASCII scalar class next to dots and quotes (the statement's 'a.X.b accepted for every X')
     xs = [chr(cp).encode() for cp in (0x80, 0xe9, 0x7ff, 0x800, 0x20ac, 0xd7ff, 0xe000, 0xfffd, 0xffff, 0x10000, 0x1f600, 0x10ffff)]
     rel = []
@@ -163,7 +163,13 @@ def main(tier, seed, prop=PROP):
             rel += [b"a." + x + b".b", x + b"." + y, x + b'"b"', b"a" + x + b'"b"', b'"' + x + b'".' + y, b'"\\' + x + b'"',
                     b'"' + x + b'\\""', x + b".." + y, b"." + x, x + b".", b'"a"' + x, b'"a".' + x, x + b'."a"',
                     b'"' + x + y + b'"', x * 16 + b"@"[:0], b'"\\' + x + b'""', b'a.' + x + b'.' + y + b'.b']
-    jobs.append((w_list63, (exe, sorted(set(rel)), opts, "relations", True)))
+    jobs.append((w_list63, (exe, sorted(set(rel)), opts, "relations", True, True)))
+    # sub-ranges that end inside a multi-byte character (the bytes completing it lie behind `end`)
+    cut = []
+    for x in xs:
+        for k in range(1, len(x)):
+            cut += [b"a" + x[:k], x[:k], b"a." + x[:k], b'"' + x[:k], b"a" * 62 + x[:k]]
+    jobs.append((w_list63, (exe, sorted(set(cut)), opts, "cut-characters", False, True)))
     for i in range(16 if tier == "quick" else 64):
         r = random.Random(seed * 7919 + i)
         ss = LG.random_strings(MODE, r, 12 if tier == "quick" else 40, 65536 if i % 4 == 0 else 2000, frozenset(opts))
